@@ -170,7 +170,6 @@ let () =
       let homesets = List.map (function L [ns; local; hp] -> ((str ns, str local), str hp) | _ -> raise (Parse_error "hs")) hs in
       let (dh, ct, bd) = req_of rq in
       form_stat (dh, ct, bd);
-      ignore dh;
-      judge sx (principal_model (str cup) homesets (str p) ct bd)
-        (fun o -> principal_spec (str cup) homesets (rid (str p)) ct bd o) obs
+      judge sx (principal_model (str cup) homesets (str p) ct bd dh)
+        (fun o -> principal_spec (str cup) homesets (rid (str p)) ct bd dh o) obs
     | _ -> raise (Parse_error "line"))
